@@ -340,9 +340,12 @@ class History:
     def after_step(self, lives, normalised=(), what=None):
         what = what or (self.oplog[-1][0] if self.oplog else "init")
         for live in lives:
+            if self.aspect == "C07":
+                # well-formedness is judged first: it is C07's claim whatever the content has become
+                self.check_wellformed(live, what)
             self.check_dense(live, what)
             if self.aspect == "C07":
-                self.check_wellformed(live, what)
+                pass
             elif self.aspect == "C15":
                 if not self.wellformed_quiet(live.x):
                     self.ctx.count("skipped:ill-formed(blame C07)")
@@ -687,8 +690,24 @@ class History:
         for coords, s in got:
             lives.append(Live(s, r.m[(slice(None),) + tuple(coords)].copy(), "slices1d"))
         self.after_step(lives, what="slices1d")
-        if lives:
-            self.add(lives[int(self.rng.integers(0, len(lives)))])
+        if lives and r.m.ndim == 2 and self.rng.random() < 0.6:
+            # the yielded slices are kept and ONE of them is changed in place: its siblings must not move
+            k = int(self.rng.integers(0, len(lives)))
+            victim = lives[k]
+            if self.rng.random() < 0.5:
+                others = [v for v in self.vals if v != victim.x.common] or [int(victim.x.common) + 1]
+                v = int(gen.pick(self.rng, others))
+                self.log("slices1d_then_shift_one", k=k, v=v)
+                victim.x.shift_common(v)
+            else:
+                extra = numpy.array([int(gen.pick(self.rng, self.vals)) for _ in range(int(self.rng.integers(1, 4)))], dtype=I64)
+                self.log("slices1d_then_append_to_one", k=k, extra=extra.tolist())
+                victim.x.append(gen.dense_to_index(extra, int(victim.x.common)))
+                victim.m = numpy.concatenate([victim.m, extra])
+            self.ctx.count("slices1d:one_slice_changed_in_place")
+            self.after_step(lives, what="slices1d then in-place change of one slice")
+        for i in ([int(x) for x in self.rng.permutation(len(lives))[:3]] if lives else []):
+            self.add(lives[i])
         return True
 
     def make_mapping(self, r, kind):
